@@ -46,6 +46,12 @@ CALLEES = [
     ("w", [("x", "Qint6"), ("y", "Qint6")], "Qint12", "return x * y"),
     ("w", [("x", "Qint4"), ("y", "bool")], ["bool"] * 12, "return (x[0], x[1], x[2], x[3], y, not y, x[0] ^ y, x[1] & y, x[2] | y, x[3], not x[0], x[1] ^ x[2])"),
     ("w", [("x", "Qint2"), ("y", "Qint2")], ["Qint2"] * 11, "return (x, y, x + y, x ^ y, x & y, x | y, x + 1, y + 1, x - y, y - x, x)"),
+    # callee variables that already carry the callee's own renaming prefix
+    ("g", [("g_x", "bool"), ("x", "bool")], "bool", "return g_x and not x"),
+    ("g", [("x", "Qint2"), ("g_x", "Qint2")], "Qint2", "return x - g_x"),
+    ("h", [("h_in", "Qint2")], "Qint2", "return h_in + 1"),
+    ("g", [("x", "bool"), ("y", "bool")], "bool", "g_x = x ^ y\n    return g_x and x"),
+    ("g", [("g__ret", "bool"), ("y", "bool")], "bool", "return g__ret or y"),
     # callees that reassign their own parameters / use statements
     ("g", [("x", "Qint2"), ("y", "bool")], "Qint2", "x = (x + 1) if y else x\n    c = x + 1\n    return c"),
     ("g", [("x", "Qint2"), ("y", "Qint2")], "Qint2", "x = x + y\n    y = y + x\n    return x ^ y"),
